@@ -300,6 +300,9 @@ func (v cgView) callersOf(f *ssa.Function) []ssa.CallInstruction {
 		}
 		for _, e := range n.In {
 			if e.Site != nil && e.Site.Common().StaticCallee() == target {
+				if par := e.Site.Parent(); par != nil && par.Synthetic != "" && par.Synthetic != "range-over-func yield" {
+					continue // wrappers and thunks generated by the compiler front end: not a call written in the code
+				}
 				if _, isGo := e.Site.(*ssa.Go); !isGo {
 					out = append(out, e.Site)
 				}
